@@ -209,6 +209,22 @@ def procCmd (ws : List String) : Option String :=
     | .val (e, _) => some s!"{e} - {name}"
     | .ub k => some (showUB k)
     | _ => some "oof"
+  | ["clockfb", id, sec, usec] => do
+    -- fallback-timer configuration: interposed gettimeofday / getrusage deliver (sec, usec)
+    let id ← id.toNat?
+    let sec ← sec.toInt?
+    let usec ← usec.toInt?
+    let call := match Gen.WasiPath.fallbackClockTable.find? (fun r => r.1 == id) with
+      | some (_, n) => n
+      | none => "none"
+    match clockTimeGetFallback (fun _ => .inr (sec, usec)) id (List.replicate 8 0xAA) 0 with
+    | .val (0, m) =>
+      let u := leVal m
+      let v : Int := if u < 9223372036854775808 then u else (u : Int) - 18446744073709551616
+      some s!"0 {v} {call}"
+    | .val (e, _) => some s!"{e} - {call}"
+    | .ub k => some (showUB k)
+    | _ => some "oof"
   | ["random", len] => do
     let len ← len.toNat?
     let mem : Mem := List.replicate (64 + len) 0
